@@ -41,6 +41,18 @@ func TestC12(t *testing.T) {
 					Host:   HostConf{Allowed: []string{"netrpc", "grpc"}, TLS: tls, Mux: mux, Launch: "cmd", Legacy: 1, SkipHostEnv: true, SysTrustCert: trustCert, SysTrustKey: trustKey},
 					Ops:    ops,
 				})
+				if auto {
+					// a host that is itself a plugin of an AutoMTLS host (its environment carries the certificate of ITS host) and
+					// builds the command's environment from its own, as hosts commonly do: the plugin must trust the host that
+					// launched it, not the one further up (whose key pair the intruder of class tls-systrusted holds)
+					cells = append(cells, Cell{
+						Name:    fmt.Sprintf("%s mux=%v AutoMTLS=%v nested host (PLUGIN_CLIENT_CERT of its own host in its environment and in Cmd.Env)", proto, mux, auto),
+						Plugin:  PluginConf{CookieKey: cookieKey, CookieValue: cookieVal, Legacy: 1, LegacyProto: proto, GRPCServer: true, TLS: "none"},
+						Host:    HostConf{Allowed: []string{"netrpc", "grpc"}, TLS: tls, Mux: mux, Launch: "cmd", Legacy: 1, SysTrustCert: trustCert, SysTrustKey: trustKey, AmbientInCmd: true, AmbientBoth: true},
+						Ambient: map[string]string{"PLUGIN_CLIENT_CERT": trustCert},
+						Ops:     ops,
+					})
+				}
 			}
 		}
 	}
